@@ -46,6 +46,16 @@ def ref_roman(n):
     return _DIG[3][n // 1000] + _DIG[2][n // 100 % 10] + _DIG[1][n // 10 % 10] + _DIG[0][n % 10]
 
 
+def noncanonical(n):
+    """Other spellings of numbers near n that a lenient parser may accept."""
+    c = ref_roman(n)
+    out = [c.replace("IV", "IIII"), c.replace("IX", "VIIII"), c.replace("XL", "XXXX"), c.replace("XC", "LXXXX"),
+           c.replace("CD", "CCCC"), c.replace("CM", "DCCCC"), c.lower()]
+    if n % 10 == 9 and 49 <= n < 3999:
+        out.append("I" + ref_roman(n + 1))      # IL, IC, IM style
+    return [a for a in dict.fromkeys(out) if a != c]
+
+
 def seqs(alpha, maxlen):
     for ln in range(maxlen + 1):
         for t in itertools.product(alpha, repeat=ln):
@@ -75,6 +85,16 @@ def check_one(case):
     fam = case["f"]
     if fam == "roman":
         n = case["n"]
+        if case.get("after_noncanonical"):
+            # numerals that are not canonical but that the parser accepts (additive IIII, subtractive IM ...) are parsed first:
+            # int_2_roman of their value is the canonical numeral all the same
+            for alt in noncanonical(n):
+                v = outcome(g.roman_2_int, alt)
+                if v[0] == "ok" and isinstance(v[1], int) and 1 <= v[1] <= 3999:
+                    again = outcome(g.int_2_roman, v[1])
+                    if again != ("ok", ref_roman(v[1])):
+                        return "roman", (f"after roman_2_int({alt!r}) -> {v[1]}: int_2_roman({v[1]}) -> {again}, canonical numeral is "
+                                         f"{ref_roman(v[1])}"), {"got": again}
         want = ref_roman(n)
         got = outcome(g.int_2_roman, n)
         if got != ("ok", want):
@@ -214,6 +234,25 @@ def check_one(case):
                     if got != ("ok", want2):
                         return "batcher_iter", (f"BatcherIter(tuple of lengths {lens}, batch={b}) -> {str(got)[:200]}, expected "
                                                 f"lock-step batches up to the shortest member: {str(want2)[:200]}"), {}
+        # a one-shot input consumed in rounds (some batches, a break, then the rest in a second loop over the same object):
+        # the rounds together are the batches of the input
+        for stop_after in (1, 2):
+            if nb <= stop_after:
+                continue
+            src = iter(base[0]) if width == 0 else tuple(iter(x) for x in base)
+            bi = g.BatcherIter(src, b)
+
+            def rounds():
+                out = []
+                for k, batch in enumerate(bi):
+                    out.append(batch)
+                    if k + 1 == stop_after:
+                        break
+                return out + list(bi)
+            got = outcome(rounds)
+            if got != ("ok", want):
+                return "batcher_iter", (f"BatcherIter(one-shot input, n={n}, batch={b}, w={width}) consumed in two rounds ({stop_after} batches, "
+                                        f"then the rest) -> {str(got)[:200]}"), {"want": want}
         # re-iterable input (sequences): every pass over the same BatcherIter object cuts the same batches, also
         # after an abandoned pass
         bi = g.BatcherIter(base[0] if width == 0 else tuple(base), b)
@@ -252,6 +291,9 @@ def check_one(case):
 def cases_of(family, tier):
     thorough = tier == "thorough"
     if family == "roman":
+        for n in range(1, 4000, 1):
+            if (n % 10 in (4, 9) or n // 10 % 10 in (4, 9) or n // 100 % 10 in (4, 9)) and n % 3 == 0:
+                yield {"f": "roman", "n": n, "after_noncanonical": True}       # (before the value's canonical numeral was ever produced)
         for n in range(1, 4000):
             yield {"f": "roman", "n": n}
     elif family.startswith("subseq-"):
